@@ -28,28 +28,22 @@ def classify(tags, mode, st):
         b, i, s, d = mem["base"], mem["index"], mem["scale"], mem["disp"]
         if tags.get("asize") == 16 and mode == 32 and (b or i):
             return "X86-16bit-addressing-in-bits32"
-        has_reg = any(o[0] == "add" and o[1][1][0] == "id" for o in st[2])
-        if mem["dt"] and not has_reg:
-            if (mode == 16 and w == 32) or (mode == 32 and w == 16):
-                return "X86-typed-mem-no-66"
-        if not mem["dt"] and tags.get("asize") == 32 and mode == 16 and w == 16 and (b or i):
-            return "X86-untyped-mem32-bogus-66"
         if not mem["dt"] and tags.get("asize") == 16 and mode == 32 and w == 32 and not (b or i):
             return None
     if imm is not None and ("imm" in form):
+        # after fix a692d8e registers and typed memory alone decide the prefix; the size class of the immediate is only
+        # consulted when no operand fixes the size (PUSH imm, untyped memory destination)
+        has_reg_op = any(o[0] == "add" and o[1][1][0] == "id" for o in st[2]) if st[0] == "mn" else False
+        sized = has_reg_op or bool(mem and mem["dt"])
         c = imm_class(imm)
-        wide = w if w is not None else mode      # PUSH imm: operand size = mode
-        if form.startswith(("in ", "out ", "int")):
-            return None
-        if mode == 16 and wide == 16 and c >= 32:
-            return "X86-imm-class-prefix"
-        if mode == 32 and wide == 32 and c == 16:
-            return "X86-imm-class-prefix"
-        # on a byte operation the bogus prefix does not change the meaning (C01 holds) but makes the encoding longer (C18)
-        if mode == 32 and wide == 8 and c == 16:
-            return "X86-imm-class-prefix"
-        if mode == 16 and wide == 8 and c >= 32:
-            return "X86-imm-class-prefix"
+        if not (form.startswith(("in ", "out ", "int")) or sized):
+            if mode == 16 and c >= 32:
+                return "X86-imm-class-prefix"
+            if mode == 32 and c == 16:
+                return "X86-imm-class-prefix"
+    if imm is not None and st[0] == "mn" and st[1] in ("ADD", "OR", "ADC", "SBB", "AND", "SUB", "XOR", "CMP") and w in (16, 32) \
+            and imm >= 2 ** (w - 1) and imm - 2 ** w >= -128:
+        return "C18-unsigned-imm-not-sign-extended"      # only ever a C18 failure: the full-width form is a correct encoding
     if form == "mov r16,sreg":
         return "X86-mov-r16-sreg-rm"
     return None
